@@ -971,7 +971,7 @@ def vcf_check(name, obj, samples, recs, phased, auto):
             raise Violation(P_ + f"stale:{f}", f"{f} is {getattr(obj, f)!r} although the VCF carries no such information")
 
 
-def vcf_case(ctx, sc, seed, ns, nr, ci, li):
+def vcf_case(ctx, sc, seed, ns, nr, ci, li, sample=False):
     text, samples, recs = vcf_text(seed, ns, nr, ci, li)
     fn = sc.path("x–ü.vcf")
     with open(fn, "w", encoding="utf8") as f:
@@ -1008,7 +1008,7 @@ def vcf_case(ctx, sc, seed, ns, nr, ci, li):
     if allok:
         ctx.traces += 1
     ctx.count("vcf-files")
-    if ctx.evaluations == 37 and (ns, nr) in ((2, 2), (3, 3)) and ci < 4 ** (ns * nr) // 8:
+    if sample and ctx.evaluations == 37:
         ctx.sample(dict(case, text=text))
 
 
@@ -1021,7 +1021,7 @@ def run_vcf(ctx, sc, spec):
     for k, (ci, li) in enumerate(vcf_cases(ns, nr, mode)):
         if k % nparts != part:
             continue
-        vcf_case(ctx, sc, ctx.seed, ns, nr, ci, li)
+        vcf_case(ctx, sc, ctx.seed, ns, nr, ci, li, sample=(part == 0 and (ns, nr) == (2, 2)))
     ctx.flag(f"vcf:{ns}x{nr}")
 
 
